@@ -251,6 +251,11 @@ func Seed(env *world.Env, name string) *world.World {
 		if env.Cfg.NumShards > 1 {
 			b.Must(PauseCall(1, vmcommon.BuiltInFunctionESDTPause, F))
 		}
+	case "aliased":
+		// undisciplined system contract: a0 holds the NFT roles of the fungible token F while it
+		// holds the fungible token "F\x01", whose key equals the key of (F, nonce 1)
+		b.fung().sft()
+		b.Must(SetRole(A0, F, NFTRoles...))
 	case "refunds":
 		// mixed, plus one refused delivery of each transfer function: three refunds in flight
 		b.fung().sft()
